@@ -187,14 +187,12 @@ Print Assumptions FISTA_completes.
 Definition nv_P (mi : nat) : fparams (T:=R) := mkFParams mi 10 0 (1/1000000) (1/1000000) (1/2) 1 1 ProjGradNorm 0 false true 0.
 Definition nv_run (mi : nat) := fista (T:=R) (fun _ _ => (0, [0])) (fun _ _ => (7, [])) (fun _ _ _ => [0]) (fun _ _ => [0]) [None] [None] []
                         (fun _ => false) (fun _ => false) (nv_P mi) [3] [] [] [] 1 (S mi).
-Lemma nv_Linit mi : L_init (fun _ _ => (0, [0])) (fun _ _ => [0]) (nv_P mi) [3] = 1.
-Proof.
-  unfold L_init, finit_L, ffixed, nv_P. cbn [fp_Lmin fp_Lmax].
-  change (@neqb R NumR 1 1) with (Req_bool 1 1). rewrite Req_bool_true by reflexivity. reflexivity.
-Qed.
 Example FISTA_nonvacuous : forall mi, exists o, nv_run mi = FDone o /\ (fo_iterations o <= mi)%nat /\ fo_status o <> StBusy.
 Proof.
   intros mi.
+  assert (nv_Linit : L_init (fun _ _ => (0, [0])) (fun _ _ => [0]) (nv_P mi) [3] = 1).
+  { unfold L_init, finit_L, ffixed, nv_P. cbn [fp_Lmin fp_Lmax].
+    change (@neqb R NumR 1 1) with (Req_bool 1 1). rewrite Req_bool_true by reflexivity. reflexivity. }
   destruct (FISTA_completes (fun _ _ => (0, [0])) (fun _ _ => (7, [])) (fun _ _ _ => [0]) (fun _ _ => [0]) [None] [None] []
               (fun _ => false) (fun _ => false) (nv_P mi) [3] [] [] [] 1 0%nat) with (fuel := S mi) as [o Ho].
   - rewrite nv_Linit. lra.
